@@ -67,6 +67,12 @@ pub(crate) fn probe_usizes(name: &str, v: &[usize]) {
     hook(name, Hook::Usizes(&mut c));
 }
 
+pub(crate) fn tap_usize(name: &str, v: usize) -> usize {
+    let mut c = [v];
+    hook(name, Hook::Usizes(&mut c));
+    c[0]
+}
+
 pub(crate) fn tap_bool(name: &str, b: bool) -> bool {
     let mut v = [b];
     hook(name, Hook::Bools(&mut v));
